@@ -6,7 +6,7 @@ use std::{
 };
 
 use rand::Rng;
-use rand_chacha::ChaCha8Rng;
+use crate::kit::SimRng as ChaCha8Rng;
 use zksync_consensus_roles::validator::{self, v2};
 
 use super::engine::NodeStore;
